@@ -86,7 +86,7 @@ def run_crosscheck(prop, tier, seed):
         pending = [(t, pool.apply_async(_xc_task, (t,))) for t in tasks]
         for t, h in pending:
             try:
-                out.append(h.get(timeout=300))
+                out.append(h.get(timeout=150))
             except Exception as e:      # noqa  (timeout: that function is simply not cross-checked in this run)
                 out.append(dict(function=t[0], variant=t[1], agree=0, disagree=[], discarded=0, skipped=0, paths=0, reason='timed out'))
     summ = dict(what='executor vs CPython on sampled inputs (a test of the encoding, not a proof; DESIGN.md 6.4)',
